@@ -8,6 +8,16 @@ NOTES = ('Technique: machine-checked proof in Lean 4 over an executable model ti
          'same generated operations; the implementation-side property oracle runs on every generated case. See DESIGN.md.')
 NOT_CLAIMED = {}
 CLAIMS = {
+ 'C10': dict(
+  technique='Lean 4 invariant, progress and termination proofs over an interleaving model of the write-merge channel protocol (any number of writers) + trace validation of recorded hook events',
+  text=('7 theorem groups (Props/C10.lean) over Model/WriteProto.lean (writers with pcs idle/selecting/waitMerged/waitAck/leader phases flush-merging-journal-apply-publish-rotate-acking, lock competitors, closed and persistent-error flags; '
+        'rendezvous steps pair sender and receiver): mutex (one token holder), group_result (a merged writer returns exactly its group\'s result; ok implies journalled and published together), exactly_one_result (counting invariants: '
+        'waiters = acks owed / replies pending, returned is absorbing), handoff_exact, no_stuck_state, terminates (a measure decreases on every step: at most 14 N steps, every writer ends with one result) — for any N, incl. runs where Close or a persistent '
+        'error arrives at any point and where flush/journal/rotate fail. Tie: every third concurrent scenario (2-32 writers, sizes around the merge limit of small buffers, NoWriteMerge, transaction/CompactRange competitor, failing journal sync, Close in the middle, '
+        'GOMAXPROCS 1/2/4/16, yields at the hooks) has its db_write.go hook log replayed through the validator proved sound w.r.t. the step relation (legalStep_sound, runEvents_reach): ~18 000 events per run; the same log is checked directly: one leader at a time, '
+        'group members return the leader\'s result, one result per call, acknowledged writes present, failed writes whole or absent.'),
+  note='Partial in the usual sense: Go channel semantics are the model\'s rendezvous steps; hook events are logged under one mutex, acquire-like after and release-like before the action. Batches routed through the large-batch transaction path are lock competitors, not protocol writers.'),
+
  'C02': dict(
   technique='Lean 4 refinement theorems (dbIter / merged / indexed iterators refine a cursor over the sorted live pairs, for every call sequence) + state-machine differential against the real iterators',
   text=('14 theorems (Props/C02.lean): for every lawful comparer, every sorted internal entry list, every snapshot sequence and EVERY finite sequence of First/Last/Seek/Next/Prev, DBIter over the raw list equals the '
